@@ -42,6 +42,7 @@ type batchOp struct {
 	Origin  interface{} // embedded anchor origin (create / recover)
 	Until   int64
 	QOrigin interface{} // anchor origin carried by the queued operation
+	NS      string      // namespace the operation was queued under (default: the harness namespace; an alias names the same DID)
 }
 
 // batchPool pre-builds, per DID, client-built operations of every type (several updates with different windows).
@@ -109,7 +110,11 @@ func batchPool(r *hx.Rng, code uint64, nDIDs int, big bool, suffixCode ...uint64
 }
 
 func (b *batchOp) queued() *operation.QueuedOperation {
-	return &operation.QueuedOperation{Type: operation.Type(b.Type), OperationRequest: b.Req, UniqueSuffix: b.Suffix, Namespace: hx.Namespace, AnchorOrigin: b.QOrigin}
+	ns := hx.Namespace
+	if b.NS != "" {
+		ns = b.NS
+	}
+	return &operation.QueuedOperation{Type: operation.Type(b.Type), OperationRequest: b.Req, UniqueSuffix: b.Suffix, Namespace: ns, AnchorOrigin: b.QOrigin}
 }
 
 var typeRank = map[string]int{"create": 0, "recover": 1, "update": 2, "deactivate": 3}
@@ -515,6 +520,13 @@ func checkC13(c *hx.Ctx) {
 				job{e, []*batchOp{ups[1], recs[0]}, 100, "operations-sharing-a-key"})
 		}
 	}
+	// the same DID addressed through the namespace and through an alias of it within one batch: still one suffix
+	for _, e := range envs {
+		viaAlias := func(b *batchOp) *batchOp { cp := *b; cp.NS = "did:alias"; return &cp }
+		jobs = append(jobs,
+			job{e, []*batchOp{pick(e, 0, "update", 0), viaAlias(pick(e, 0, "update", 1)), pick(e, 1, "create", 0)}, 100, "same-suffix-under-two-namespaces"},
+			job{e, []*batchOp{viaAlias(pick(e, 2, "deactivate", 0)), pick(e, 2, "recover", 0), viaAlias(pick(e, 3, "update", 0)), pick(e, 3, "update", 1)}, 100, "same-suffix-under-two-namespaces"})
+	}
 	// random mixes
 	nRand := c.N(1500, 60000)
 	rr := c.Rng("random")
@@ -543,7 +555,7 @@ func checkC13(c *hx.Ctx) {
 	c.Sample(3, map[string]interface{}{"batch": ids(jobs[len(seqs)/2].batch), "tag": jobs[len(seqs)/2].tag})
 	c.Sample(3, map[string]interface{}{"batch": ids(jobs[len(jobs)-1].batch), "tag": "random"})
 	c.Set("exhaustive_type_sequences", len(seqs))
-	for _, t := range []string{"types-distinct-dids", "repeated-suffix", "expiring-at-450", "expiring-at-600", "update-only-max", "deactivate-only-max", "single", "maximum-size", "tight-file-limits", "random", "six-operations-one-suffix", "operations-sharing-a-key", "suffix-algorithm-differs-from-controller-algorithm"} {
+	for _, t := range []string{"types-distinct-dids", "repeated-suffix", "expiring-at-450", "expiring-at-600", "update-only-max", "deactivate-only-max", "single", "maximum-size", "tight-file-limits", "random", "six-operations-one-suffix", "operations-sharing-a-key", "suffix-algorithm-differs-from-controller-algorithm", "same-suffix-under-two-namespaces"} {
 		c.Floor("ok:"+t, 1)
 	}
 	c.Floor("all_expired_batches", 1)
